@@ -12,7 +12,15 @@
 //   nil   -> (&PutRecordsOutput{}, nil)    FailedRecordCount == nil
 //   resp  -> FailedRecordCount = cnt and one PutRecordsResultEntry per element of codes, with an
 //            ErrorCode where codes[i]; cnt and codes are independent, so ill-formed answers
-//            (count 0 with codes, count > 0 without, wrong length) can be given.
+//            (count 0 with codes, count > 0 without, wrong length) can be given.  The ErrorCode
+//            STRING of a failing entry is names[i] (default ProvisionedThroughputExceededException):
+//            the documented per-record codes "ProvisionedThroughputExceededException" and
+//            "InternalFailure", or any other string.  The model and the property treat every
+//            non-nil code as a failure.
+// A batch's script has budget+1 steps.  Should the worker call again (it must not), the fake keeps
+// every record of the request failed (throttled), and at call 10*(budget+1) it cancels
+// TerminateCtx itself and records that it CUT the run: a worker that retries for ever is thereby
+// observed in bounded time.
 // A step with cancel=true calls the shutdown handler's CancelFunc inside PutRecords before
 // answering.  pre=true cancels from the transporter's own TimeSource read `start := ts.UnixNano()`,
 // i.e. after the batch was taken and passed both selects and before the first attempt; the same
@@ -57,7 +65,32 @@ type kstep struct {
 	Kind   string `json:"kind"` // err | perm | nil | resp
 	Cnt    uint64 `json:"cnt,omitempty"`
 	Codes  []bool `json:"codes,omitempty"`
-	Cancel bool   `json:"cancel,omitempty"`
+	// ErrorCode string of entry i where codes[i] (missing or "" = ProvisionedThroughputExceededException)
+	Names  []string `json:"names,omitempty"`
+	Cancel bool     `json:"cancel,omitempty"`
+	Beyond bool     `json:"-"` // answer invented by the fake after the script was used up
+}
+
+const (
+	codeThrottle = "ProvisionedThroughputExceededException"
+	codeInternal = "InternalFailure"
+)
+
+func (s kstep) name(i int) string {
+	if i < len(s.Names) && s.Names[i] != "" {
+		return s.Names[i]
+	}
+	return codeThrottle
+}
+
+func codeClass(n string) string {
+	switch n {
+	case codeThrottle:
+		return "throttled"
+	case codeInternal:
+		return "InternalFailure"
+	}
+	return "other-code"
 }
 
 type kbatch struct {
@@ -113,6 +146,7 @@ type kentry struct {
 	written bool
 	repOK   bool   // the report is the batch's own transactions map with the expected content
 	repWhat string // why not
+	cut     bool   // the fake cancelled TerminateCtx at call 10*(budget+1) of this batch
 }
 
 type kobs struct {
@@ -132,7 +166,7 @@ type runState struct {
 	armed     bool // next TimeSource read is `start := ts.UnixNano()` of batch cur
 	taken     map[int]bool
 	calls     map[int][]kcall
-	exhausted bool
+	cut       map[int]bool
 	stray     int // calls outside any offered batch
 	panicMsg  string
 }
@@ -195,8 +229,18 @@ func (f *fakeKinesis) PutRecords(in *awskinesis.PutRecordsInput) (*awskinesis.Pu
 	} else if k := len(rs.calls[j]); k < len(rs.c.Batches[j].Script) {
 		st = rs.c.Batches[j].Script[k]
 	} else {
-		rs.exhausted = true
-		st = kstep{Kind: "perm"}
+		// more calls than budget+1: keep every record failed; cut the run at 10*(budget+1) calls
+		st = kstep{Kind: "err", Beyond: true}
+		if l := len(in.Records); l > 0 {
+			st = kstep{Kind: "resp", Cnt: uint64(l), Codes: make([]bool, l), Beyond: true}
+			for i := range st.Codes {
+				st.Codes[i] = true
+			}
+		}
+		if uint64(k+1) >= 10*(rs.c.N+1) {
+			st.Cancel = true
+			rs.cut[j] = true
+		}
 	}
 	kc.step = st
 	rs.calls[j] = append(rs.calls[j], kc)
@@ -218,7 +262,7 @@ func (f *fakeKinesis) PutRecords(in *awskinesis.PutRecordsInput) (*awskinesis.Pu
 	for i, code := range st.Codes {
 		e := &awskinesis.PutRecordsResultEntry{}
 		if code {
-			e.ErrorCode = aws.String("ProvisionedThroughputExceededException")
+			e.ErrorCode = aws.String(st.name(i))
 			e.ErrorMessage = aws.String("scripted")
 		} else {
 			e.SequenceNumber = aws.String(fmt.Sprintf("%d", i))
@@ -320,7 +364,7 @@ func runImpl(c kcase) (kobs, []*builtBatch) {
 		built[j] = bb
 	}
 	sh := shutdown.NewShutdownHandler()
-	rs := &runState{sh: sh, c: &c, taken: map[int]bool{}, calls: map[int][]kcall{}}
+	rs := &runState{sh: sh, c: &c, taken: map[int]bool{}, calls: map[int][]kcall{}, cut: map[int]bool{}}
 	in := make(chan transport.Batch)
 	txns := make(chan *ordered_map.OrderedMap)
 	statsChan := make(chan stats.Stat, 64)
@@ -414,9 +458,6 @@ loop:
 	if escaped != nil {
 		obs.harness = append(obs.harness, fmt.Sprintf("a panic escaped StartTransporting: %v", escaped))
 	}
-	if rs.exhausted {
-		obs.harness = append(obs.harness, "script exhausted (more than n+1 calls for one batch)")
-	}
 	if rs.stray > 0 {
 		obs.harness = append(obs.harness, fmt.Sprintf("%d sink calls outside a taken batch", rs.stray))
 	}
@@ -428,7 +469,7 @@ loop:
 			}
 			continue
 		}
-		e := kentry{batch: j, calls: rs.calls[j]}
+		e := kentry{batch: j, calls: rs.calls[j], cut: rs.cut[j]}
 		if m := reports[j]; m != nil {
 			e.written = true
 			e.repOK, e.repWhat = checkReport(built[j], m)
@@ -541,6 +582,9 @@ func monitor(c kcase, obs kobs, built []*builtBatch) (vs []core.Violation, outsi
 	add := func(sig, what string) {
 		vs = append(vs, core.Violation{Property: "C11", Signature: sig, What: what, Case: c})
 	}
+	add17 := func(sig, what string) {
+		vs = append(vs, core.Violation{Property: "C17", Signature: sig, What: what, Case: c})
+	}
 	shutdownAt := -1 // entry index during which shutdown was first requested
 	if c.Ctx0 && len(obs.entries) > 0 {
 		add("batch-taken-after-shutdown", "a batch passed the selects although TerminateCtx was cancelled before the start")
@@ -557,10 +601,19 @@ func monitor(c kcase, obs kobs, built []*builtBatch) (vs []core.Violation, outsi
 		if ei > 0 && !obs.entries[ei-1].written {
 			add("batch-taken-after-unwritten-batch", fmt.Sprintf("batch %d was taken although batch %d was not reported written", e.batch, obs.entries[ei-1].batch))
 		}
+		// wf: every answer obeys the AWS response contract for the request it answers.  Once the
+		// worker has sent a request C11 does not prescribe (deviated), a scripted answer that no
+		// longer fits that request is the worker's doing, not the sink's: answers are then judged
+		// only up to the deviation.
 		wf := true
-		for _, kc := range e.calls {
+		for k, kc := range e.calls {
 			if !stepWF(kc.step, len(kc.ids)) {
 				wf = false
+				break
+			}
+			if k+1 < len(e.calls) && kc.step.Kind == "resp" && kc.step.Cnt != 0 &&
+				!eqIDs(e.calls[k+1].ids, filterIDs(kc.ids, kc.step.Codes)) {
+				break
 			}
 		}
 		// retry exactness (no assumption on the answers)
@@ -594,7 +647,49 @@ func monitor(c kcase, obs kobs, built []*builtBatch) (vs []core.Violation, outsi
 						}
 					}
 					if !eqIDs(next, want) {
-						add("retry-not-exact/after-partial-failure", fmt.Sprintf("batch %d: call %d carries %v, the failed records of call %d are %v", e.batch, k+1, next, k, want))
+						// which failed records were not sent again (by the class of their error code),
+						// which records were sent although not failed
+						inNext := map[uint64]bool{}
+						for _, x := range next {
+							inNext[x] = true
+						}
+						inWant := map[uint64]bool{}
+						dropped := map[string]bool{}
+						var droppedIDs []uint64
+						for i, code := range kc.step.Codes {
+							if code {
+								inWant[kc.ids[i]] = true
+								if !inNext[kc.ids[i]] {
+									dropped[codeClass(kc.step.name(i))] = true
+									droppedIDs = append(droppedIDs, kc.ids[i])
+								}
+							}
+						}
+						extra := false
+						for _, x := range next {
+							if !inWant[x] {
+								extra = true
+							}
+						}
+						sig := "retry-not-exact/after-partial-failure"
+						var cls []string
+						for cl := range dropped {
+							cls = append(cls, cl)
+						}
+						sort.Strings(cls)
+						switch {
+						case len(cls) > 0:
+							sig += "/dropped:" + strings.Join(cls, "+")
+						case extra:
+							sig += "/resent-unfailed"
+						default:
+							sig += "/reordered"
+						}
+						what := fmt.Sprintf("batch %d: call %d carries %v, the failed records of call %d are %v", e.batch, k+1, next, k, want)
+						if len(droppedIDs) > 0 {
+							what += fmt.Sprintf("; records %v failed in call %d with error codes of class %v and were never sent again", droppedIDs, k, cls)
+						}
+						add(sig, what)
 					}
 				default:
 					add("call-after-fatal-answer", fmt.Sprintf("batch %d: call %d follows answer %+v (permanent error, nil count or wrong length)", e.batch, k+1, kc.step))
@@ -609,6 +704,30 @@ func monitor(c kcase, obs kobs, built []*builtBatch) (vs []core.Violation, outsi
 		}
 		if uint64(len(e.calls)) > c.N+1 {
 			add("calls-exceed-budget", fmt.Sprintf("batch %d: %d calls with a budget of %d retries", e.batch, len(e.calls), c.N))
+			// fail-stop (C17): budget+1 failed calls must end the worker.  Class by what the failures
+			// inside the budget were.
+			partial, whole := false, false
+			for _, kc := range e.calls[:c.N+1] {
+				if kc.step.Kind == "resp" && kc.step.Cnt != 0 {
+					partial = true
+				} else if kc.step.Kind == "err" {
+					whole = true
+				}
+			}
+			sig := "retry-budget-not-honoured"
+			switch {
+			case partial && whole:
+				sig += "/partial-failures+whole-call-errors"
+			case partial:
+				sig += "/partial-failures"
+			default:
+				sig += "/whole-call-errors"
+			}
+			what := fmt.Sprintf("batch %d: the sink failed %d calls in a row (every answer kept at least one record failed or was a whole-call error) but the worker went on to make %d calls with a budget of %d retries (at most %d calls) instead of stopping", e.batch, c.N+1, len(e.calls), c.N, c.N+1)
+			if e.cut {
+				what += fmt.Sprintf("; the harness cut the run by cancelling TerminateCtx at call %d: the worker was still retrying", len(e.calls))
+			}
+			add17(sig, what)
 		}
 		// written => every record accepted in some call; not written when exhausted / shut down
 		if e.written {
@@ -635,7 +754,25 @@ func monitor(c kcase, obs kobs, built []*builtBatch) (vs []core.Violation, outsi
 			if len(missing) > 0 {
 				what := fmt.Sprintf("batch %d was reported written although records %v had no error-free response entry in any call", e.batch, missing)
 				if wf {
-					add("written-with-unaccepted-record", what)
+					// class of the error code each missing record got when it was last sent
+					cl := map[string]bool{}
+					for _, id := range missing {
+						last := "never-sent"
+						for _, kc := range e.calls {
+							for i, x := range kc.ids {
+								if x == id && kc.step.Kind == "resp" && i < len(kc.step.Codes) && kc.step.Codes[i] {
+									last = codeClass(kc.step.name(i))
+								}
+							}
+						}
+						cl[last] = true
+					}
+					var cls []string
+					for k := range cl {
+						cls = append(cls, k)
+					}
+					sort.Strings(cls)
+					add("written-with-unaccepted-record/last-code:"+strings.Join(cls, "+"), what+fmt.Sprintf(" (error code class when last sent: %v)", cls))
 				} else {
 					outside = append(outside, what)
 				}
@@ -674,6 +811,9 @@ func monitor(c kcase, obs kobs, built []*builtBatch) (vs []core.Violation, outsi
 	// fail-stop: after an unwritten batch or a shutdown request the transporter must have terminated
 	if n := len(obs.entries); n > 0 && (!obs.entries[n-1].written || shutdownAt >= 0) && !obs.stopped {
 		add("not-terminated", "the transporter was still running after a batch that was not reported written / after shutdown was requested")
+		if !obs.entries[n-1].written {
+			add17("worker-not-stopped-after-unwritten-batch", fmt.Sprintf("batch %d was not reported written (retry budget exhausted, permanent error or panic) and the worker neither returned nor cancelled TerminateCtx", obs.entries[n-1].batch))
+		}
 	}
 	if c.Ctx0 && !obs.stopped {
 		add("not-terminated", "the transporter was still running although TerminateCtx was cancelled before the start")
@@ -718,6 +858,35 @@ func genMask(rng *rand.Rand, n int, mode int) []bool {
 		}
 	}
 	return m
+}
+
+// genNames picks the ErrorCode string of every failing entry: the two per-record codes the
+// PutRecords API documents, or some other string.
+func genNames(rng *rand.Rand, codes []bool) []string {
+	others := []string{"InternalFailureException", "KMSThrottlingException", "ValidationException", "AccessDeniedException", "X"}
+	style := rng.Intn(4) // 0: all throttled, 1: all InternalFailure, 2,3: mixed
+	names := make([]string, len(codes))
+	for i, c := range codes {
+		if !c {
+			continue
+		}
+		switch {
+		case style == 0:
+			names[i] = codeThrottle
+		case style == 1:
+			names[i] = codeInternal
+		default:
+			switch r := rng.Intn(10); {
+			case r < 5:
+				names[i] = codeThrottle
+			case r < 8:
+				names[i] = codeInternal
+			default:
+				names[i] = others[rng.Intn(len(others))]
+			}
+		}
+	}
+	return names
 }
 
 func countTrue(m []bool) uint64 {
@@ -773,6 +942,10 @@ func genCase(rng *rand.Rand, adversarial bool) kcase {
 	}
 	next := uint64(1 + rng.Intn(50))
 	pSucc := []int{15, 35, 60}[rng.Intn(3)] // per-attempt success percentage
+	persistent := !adversarial && rng.Intn(12) == 0
+	if persistent {
+		c.Mode = "contract-persistent-partial-failure"
+	}
 	for j := 0; j < nb; j++ {
 		sz := genSize(rng)
 		if sz > 60 && j > 0 {
@@ -821,8 +994,15 @@ func genCase(rng *rand.Rand, adversarial bool) kcase {
 				m := genMask(rng, len(cur), []int{0, 0, 0, 1, 2, 3}[rng.Intn(6)])
 				s = kstep{Kind: "resp", Cnt: countTrue(m), Codes: m}
 			}
-			if rng.Intn(14) == 0 {
+			if persistent && len(cur) > 0 {
+				// a sink that keeps failing at record level for the whole budget
+				m := genMask(rng, len(cur), []int{0, 0, 1, 2}[rng.Intn(4)])
+				s = kstep{Kind: "resp", Cnt: countTrue(m), Codes: m}
+			} else if rng.Intn(14) == 0 {
 				s.Cancel = true
+			}
+			if s.Kind == "resp" && countTrue(s.Codes) > 0 {
+				s.Names = genNames(rng, s.Codes)
 			}
 			b.Script = append(b.Script, s)
 			// the generator's bookkeeping of the request size for the next mask (not an oracle:
@@ -892,6 +1072,16 @@ func classify(c kcase, obs kobs) (tags []string, nontrivial bool) {
 			if kc.step.Kind == "resp" && kc.step.Cnt != 0 && len(kc.step.Codes) != len(kc.ids) {
 				set["branch:length-mismatch-panic"] = true
 			}
+			if kc.step.Kind == "resp" {
+				for i, code := range kc.step.Codes {
+					if code {
+						set["errorcode:"+codeClass(kc.step.name(i))] = true
+					}
+				}
+			}
+			if kc.step.Beyond {
+				set["branch:call-beyond-budget"] = true
+			}
 			if kc.step.Cancel {
 				nontrivial = true
 				if stepFailed(kc.step) {
@@ -936,7 +1126,7 @@ func init() {
 		for i := 0; i < n; i++ {
 			cases = append(cases, genCase(rng, rng.Intn(4) == 0))
 		}
-		rep.Rule = "corpus first, then seeded: 75% cases whose answers all lie inside the AWS response contract (per attempt: success, whole-call error, or a non-empty failure subset with matching count; success rate 15/35/60% per case), 25% adversarial cases in which ~22% of the answers are ill-formed (count 0 with error codes, count>0 without, response shorter/longer than the request, count != number of codes, nil FailedRecordCount, backoff.Permanent). 1-6 batches of 0..500 records, budgets 0..7, shutdown requested during ~7% of calls, before ~4% of first attempts, before the start in ~2% of cases. Non-trivial: some batch needed a second call, or a shutdown request, budget exhaustion or panic was observed; distinct by case."
+		rep.Rule = "corpus first, then seeded: 75% cases whose answers all lie inside the AWS response contract (per attempt: success, whole-call error, or a non-empty failure subset with matching count; success rate 15/35/60% per case), 25% adversarial cases in which ~22% of the answers are ill-formed (count 0 with error codes, count>0 without, response shorter/longer than the request, count != number of codes, nil FailedRecordCount, backoff.Permanent). 1-6 batches of 0..500 records, budgets 0..7, every failing response entry carries an ErrorCode string drawn from ProvisionedThroughputExceededException / InternalFailure / other strings (per response: all throttled 25%, all InternalFailure 25%, mixed 50%); ~6% of cases are a sink that fails at record level on every call of the budget; shutdown requested during ~7% of calls, before ~4% of first attempts, before the start in ~2% of cases. Non-trivial: some batch needed a second call, or a shutdown request, budget exhaustion or panic was observed; distinct by case."
 		var sb strings.Builder
 		sb.WriteString("From Bifrost.model Require Import Base KinesisRetry.\nDefinition cases : list kcase := [\n")
 		seen := map[string]bool{}
@@ -965,6 +1155,11 @@ func init() {
 					core.Bump(rep, "batch-size:9-60")
 				default:
 					core.Bump(rep, "batch-size:500")
+				}
+			}
+			for _, e := range obs.entries {
+				if e.cut {
+					core.Bump(rep, "harness-cut-runaway-worker")
 				}
 			}
 			tags, nontrivial := classify(c, obs)
@@ -1011,7 +1206,13 @@ func replay(cs json.RawMessage) string {
 		b := c.Batches[e.batch]
 		fmt.Fprintf(&sb, "batch %d records %v (shutdown before first attempt: %v)\n", e.batch, b.Recs, b.Pre)
 		for k, kc := range e.calls {
+			if kc.step.Beyond && k > int(c.N)+1 && k+1 < len(e.calls) {
+				continue // the invented answers past the budget are all alike
+			}
 			fmt.Fprintf(&sb, "  PutRecords call %d: records %v -> answer %+v\n", k, kc.ids, kc.step)
+		}
+		if e.cut {
+			fmt.Fprintf(&sb, "  CUT: the fake cancelled TerminateCtx at call %d (10 x (budget+1)); the worker was still retrying\n", len(e.calls))
 		}
 		fmt.Fprintf(&sb, "  written report: %v\n", e.written)
 	}
